@@ -17,7 +17,7 @@ import (
 func init() {
 	fw.Register(&fw.Check{Prop: "C14", Level: "exploration",
 		Assume: []string{
-			"routing oracle ref/mux: written from the property statement; for DS queries the statement pins the handler only when the question name itself is registered and at most one other non-root pattern encloses it and the root is not registered; elsewhere (several enclosing patterns, root registered, question name not a pattern) any enclosing pattern is accepted and the observed policy is counted",
+			"routing oracle ref/mux: written from the property statement; for DS queries the statement pins the handler only when the question name itself is registered and at most one other pattern (the root pattern included) encloses it; elsewhere (several enclosing patterns, question name not a pattern) any enclosing pattern is accepted and the observed policy is counted",
 		},
 		Spaces: c14Spaces})
 }
@@ -94,9 +94,11 @@ func c14Route(r *fw.R, mask int) {
 					rootReg = true
 				}
 				selfReg := false
+				qIsRoot := false
 				if len(q.names) > 0 {
 					p := rn.Parse(q.names[0])
 					low := rn.Lower(p.Labels)
+					qIsRoot = len(low) == 0
 					for i := 0; i < len(low); i++ {
 						if pat, ok := reg[string(rn.Wire(low[i:]))]; ok {
 							cands = append(cands, pat)
@@ -143,6 +145,8 @@ func c14Route(r *fw.R, mask int) {
 						want = []string{cands[1]} // the enclosing parent zone
 					case selfReg && len(cands) == 1 && !rootReg:
 						want = []string{cands[0]} // no parent registered: the child gets it
+					case selfReg && len(cands) == 1 && rootReg && !qIsRoot:
+						want = []string{"."} // the only registered zone that encloses the question name from above is the root
 					default:
 						pinned = false
 						want = append(want, cands...)
